@@ -8,3 +8,4 @@ import RlboxModel.Lemmas.Arith
 import RlboxModel.Props.C05
 import RlboxModel.Props.C06
 import RlboxModel.Props.C10
+import RlboxModel.Props.C17
